@@ -613,6 +613,17 @@ def c_facts(ctext):
     f['final'] = re.sub(r'\s+', ' ', body[body.index('// finalization'):body.index('return h1;')])
     f['seed0'] = re.search(r'uint32_t seed = 0;', ctext) is not None
     f['block_type'] = re.search(r'const int64_t \* blocks', body) is not None
+    # integer promotion: an array element shifted left by 24 bits or more must have been widened to 64 bits first - a (u)int8_t promoted to int
+    # and shifted into bit 31 is sign-extended when it is then widened
+    narrow = []
+    for m_ in re.finditer(r'(\(\s*\(?\s*(?:u?int64_t|unsigned long long|long long)\s*\)?\s*\)?\s*\(?\s*)?(\w+\s*\[[^\]]+\])\s*\)*\s*<<\s*(\d+)', ctext):
+        cast, operand, amount = m_.group(1), m_.group(2), int(m_.group(3))
+        widened = bool(cast and re.search(r'int64_t|long long', cast))
+        if amount >= 24 and not widened:
+            narrow.append('%s << %d' % (re.sub(r'\s+', '', operand), amount))
+    f['narrow_shifts'] = narrow
+    gb = re.search(r'int64_t\s+getblock\s*\([^)]*\)\s*\{(.*?)\}', ctext, re.S)
+    f['getblock'] = re.sub(r'\s+', ' ', gb.group(1)).strip() if gb else None
     # scoping of the k1 / k2 accumulators: the tail switch xors into them, so they must still be 0 when it starts
     f['tail_zero'] = {}
     lm = re.search(r'for\s*\(\s*i\s*=\s*0\s*;\s*i\s*<\s*nblocks\s*;\s*i\+\+\s*\)\s*\{', body)
@@ -700,6 +711,12 @@ def murmur_pair(chk):
     bt_bad, signed_py = body_tail_facts(pm, bt)
     signed_py = signed_py and not unsigned
     signed_c = cf['tail_type'] == ('int8_t', 'int8_t') and cf['data_type'] == ('int8_t', 'int8_t')
+    tz7 = cf.get('tail_zero') or {}
+    chk.judge(sorted(tz7) == ['k1', 'k2'] and all(tz7.values()), 'C07.murmur', loc, 'C: the tail accumulators k1, k2 are still 0 when the tail switch starts (as in Python, which resets them after the block loop)',
+              'the C block loop writes the function-level %s that the tail switch xors into; the Python implementation resets them: the two differ for keys longer than one block whose length is not a multiple of 16' % [v for v, o_ in sorted(tz7.items()) if not o_])
+    chk.judge(not cf['narrow_shifts'] and cf['getblock'] is not None, 'C07.murmur', loc, 'C: 64-bit words are loaded whole or built from bytes widened to 64 bits before shifting (getblock: %s)' % cf['getblock'],
+              'a byte is shifted left by 24 or more before being widened (%s): after integer promotion a byte >= 0x80 lands in bit 31 and is sign-extended into the upper half of the word, so keys '
+              'with such a byte hash differently from the Python implementation (which unpacks little-endian signed 64-bit words)' % cf['narrow_shifts'])
     chk.judge(signed_py and signed_c, 'C07.murmur', loc, 'tail bytes are signed on both sides (int8_t* in C, struct format b and no masking in Python)',
               'tail byte signedness differs: C tail pointer %s / data pointer %s, Python %s: keys with a byte >= 0x80 in the last len %% 16 bytes hash differently'
               % (cf['tail_type'], cf['data_type'], 'signed' if signed_py else 'masks the byte (%s)' % unsigned))
